@@ -355,15 +355,12 @@ def check_a(desc, runs=None, seed_runs=None):
 
 
 def run_a(unit, tier, res):
+    """Forced obfuscator orders and set schedules inside the obfuscators, in-process."""
     import math
-    cases = [c for c in cases_a(tier) if c["n"] in set(unit["cases"])]
-    seeds = seeds_for(tier)
-    tables = {}
-    witnesses = {}
-    inside_witnesses = {}
+    wanted = set(unit["cases"])
+    cases = [c for c in cases_a(tier) if c["n"] in wanted]
     for case in cases:
         names, runs = forced_table(case)
-        tables[case["n"]] = runs
         outs = set(_fp(r["out"]) for r in runs)
         obs_orders = set(tuple(r["observed"]) for r in runs)
         followed = sum(1 for r in runs if r["observed"] == r["forced"])
@@ -375,7 +372,6 @@ def run_a(unit, tier, res):
         res.transitions += sum(r["calls"] for r in runs)
         res.stat("A_cases")
         res.stat("A_forced_executions", len(runs))
-        res.stat("A_forced_orders_requested", len(runs))
         res.stat("A_cases_with_all_factorial_orders", 1 if len(runs) == math.factorial(len(names)) else 0)
         res.stat("A_distinct_orders_observed", len(obs_orders))
         res.stat("A_executions_where_code_followed_forced_order", followed)
@@ -387,6 +383,7 @@ def run_a(unit, tier, res):
         if len(res.samples) < 2:
             res.samples.append({"part": "A", "case": case_core(case), "orders": [runs[0]["forced"], runs[-1]["forced"]],
                                 "seeds": [0, 1]})
+        desc = {"part": "A", "case": case_core(case)}
         if len(outs) > 1:
             res.stat("A_cases_with_more_than_one_output_forced")
             _, witness = measured_pairs(runs)
@@ -394,7 +391,7 @@ def run_a(unit, tier, res):
                 first = runs[0]
                 other = [r for r in runs if _fp(r["out"]) != _fp(first["out"])][0]
                 witness = [first["forced"], other["forced"]]
-            witnesses[case["n"]] = witness
+            desc["orders"] = witness
         # ---- set iteration order inside the obfuscators, owned in-process -----------------------
         iruns, complete = lib.explore_inside(case)
         iouts = {}
@@ -412,42 +409,38 @@ def run_a(unit, tier, res):
                              "or more than 3000 schedules)" % lib.INSIDE_MAX_N)
         if len(iouts) > 1:
             res.stat("A_cases_with_more_than_one_output_inside")
-            ordered = sorted(iouts.values(), key=lambda ch: (len(ch), ch))
-            inside_witnesses[case["n"]] = ordered[:2]
-    # ---- real hash seeds, one child interpreter per seed for the whole batch -------------------
+            desc["inside"] = sorted(iouts.values(), key=lambda ch: (len(ch), ch))[:2]
+        if "orders" in desc or "inside" in desc:
+            for clause, exp, obs, feats in check_a(desc, runs):
+                res.violation(clause, desc, exp, obs, feats)
+
+
+def run_a_seeds(unit, tier, res):
+    """The same cases under real hash seeds: one child interpreter per seed for the whole batch; the full output
+    text of every case is compared over the seeds.  (The forced table of a case is recomputed only when its
+    outputs differ, to tell order dependence from other seed dependence.)"""
+    wanted = set(unit["cases"])
+    cases = [c for c in cases_a(tier) if c["n"] in wanted]
+    seeds = seeds_for(tier)
     got = lib.run_children([case_core(c) for c in cases], seeds, parallel=8 if tier == "quick" else 4)
     for ci, case in enumerate(cases):
-        runs = tables[case["n"]]
         per_seed = [(k, got[k][ci]) for k in seeds]
         res.traces += len(per_seed)
         res.transitions += sum(r["calls"] for _, r in per_seed)
         res.stat("A_seed_executions", len(per_seed))
         res.stat("A_distinct_orders_observed_over_seeds", len(set(tuple(r["observed"]) for _, r in per_seed)))
-        by_obs = {}
-        for r in runs:
-            by_obs.setdefault(tuple(r["observed"]), set()).add(_fp(r["out"]))
-        unexplained = sum(1 for _, r in per_seed if by_obs.get(tuple(r["observed"])) != set([_fp(r["out"])]))
-        res.stat("A_seed_outputs_not_matching_forced_table", unexplained)
         outs = {}
         for k, r in per_seed:
             outs.setdefault(_fp(r["out"]), k)
         res.evals += len(per_seed)
         res.outcomes.add("A:seeds:%d-outputs" % len(outs))
         res.maxi("A_max_distinct_outputs_of_one_case_over_seeds", len(outs))
-        desc = {"part": "A", "case": case_core(case)}
-        seed_runs = None
-        if case["n"] in witnesses:
-            desc["orders"] = witnesses[case["n"]]
-        if case["n"] in inside_witnesses:
-            desc["inside"] = inside_witnesses[case["n"]]
         if len(outs) > 1:
             res.stat("A_cases_with_more_than_one_output_seeds")
             k1 = per_seed[0][0]
             k2 = [k for k, r in per_seed if _fp(r["out"]) != _fp(per_seed[0][1]["out"])][0]
-            desc["seeds"] = [k1, k2]
-            seed_runs = {k1: got[k1][ci], k2: got[k2][ci]}
-        if "orders" in desc or "seeds" in desc or "inside" in desc:
-            for clause, exp, obs, feats in check_a(desc, runs, seed_runs):
+            desc = {"part": "A", "case": case_core(case), "seeds": [k1, k2]}
+            for clause, exp, obs, feats in check_a(desc, None, {k1: got[k1][ci], k2: got[k2][ci]}):
                 res.violation(clause, desc, exp, obs, feats)
 
 
@@ -870,7 +863,25 @@ def run_c(unit, tier, res):
     root = mkscratch("c10c")
     try:
         allsyms = _strings(C_KINDS, L)
-        found = {}
+        if unit.get("seeds"):
+            # real seeds for the short contents (one child per seed for the whole batch)
+            short = [x for x in allsyms if len(x) <= 2]
+            seeds = seeds_for(tier)
+            got = lib.run_children([c_case(allow, x) for x in short], seeds, parallel=8 if tier == "quick" else 4)
+            for i, syms in enumerate(short):
+                outs = {}
+                for k in seeds:
+                    outs.setdefault(_fp(got[k][i]["out"]), k)
+                res.evals += len(seeds)
+                res.traces += len(seeds)
+                res.stat("C_seed_executions", len(seeds))
+                res.outcomes.add("C:seeds:%d-outputs" % len(outs))
+                if len(outs) > 1:
+                    res.stat("C_cases_with_more_than_one_output_seeds")
+                    desc = {"part": "C", "allow": allow, "syms": syms, "seeds": sorted(outs.values())[:2]}
+                    for clause, exp, obs, feats in check_c(desc, root):
+                        res.violation(clause, desc, exp, obs, feats)
+            return
         for syms in enumx.shard(allsyms, unit["shard"], unit["of"]):
             case = c_case(allow, syms)
             runs, complete = lib.explore_scheduled(lambda: lib.run_allow(case, root)["out"], FILTER_MODULES)
@@ -889,31 +900,10 @@ def run_c(unit, tier, res):
                 res.exhaustive = False
             if len(outs) > 1:
                 res.stat("C_cases_with_more_than_one_output")
-                found[syms] = sorted(outs.values(), key=lambda ch: (len(ch), ch))[:2]
-        # real seeds for the short contents of this shard (one child per seed for the whole batch)
-        short = [x for x in enumx.shard(allsyms, unit["shard"], unit["of"]) if len(x) <= 2]
-        seeds = seeds_for(tier)
-        got = lib.run_children([c_case(allow, x) for x in short], seeds, parallel=8 if tier == "quick" else 4) if short else {}
-        seed_w = {}
-        for i, syms in enumerate(short):
-            outs = {}
-            for k in seeds:
-                outs.setdefault(_fp(got[k][i]["out"]), k)
-            res.evals += len(seeds)
-            res.traces += len(seeds)
-            res.stat("C_seed_executions", len(seeds))
-            res.outcomes.add("C:seeds:%d-outputs" % len(outs))
-            if len(outs) > 1:
-                res.stat("C_cases_with_more_than_one_output_seeds")
-                seed_w[syms] = sorted(outs.values())[:2]
-        for syms in sorted(set(found) | set(seed_w), key=lambda x: (len(x), x)):
-            desc = {"part": "C", "allow": allow, "syms": syms}
-            if syms in found:
-                desc["schedules"] = found[syms]
-            if syms in seed_w:
-                desc["seeds"] = seed_w[syms]
-            for clause, exp, obs, feats in check_c(desc, root):
-                res.violation(clause, desc, exp, obs, feats)
+                desc = {"part": "C", "allow": allow, "syms": syms,
+                        "schedules": sorted(outs.values(), key=lambda ch: (len(ch), ch))[:2]}
+                for clause, exp, obs, feats in check_c(desc, root):
+                    res.violation(clause, desc, exp, obs, feats)
     finally:
         shutil.rmtree(root, ignore_errors=True)
 
@@ -925,9 +915,12 @@ def run_c(unit, tier, res):
 def units(tier, seed):
     us = []
     ids = [c["n"] for c in cases_a(tier)]
-    per = 130 if tier == "quick" else 60
-    for i in range(0, len(ids), per):
-        us.append({"part": "A", "cases": ids[i:i + per]})
+    n = 12 if tier == "quick" else 32
+    for i in range(n):                       # round-robin: the heavy hand-catalogue cases are spread over the units
+        us.append({"part": "A", "cases": ids[i::n]})
+    n = 2 if tier == "quick" else 8
+    for i in range(n):
+        us.append({"part": "A", "seeds": True, "cases": ids[i::n]})
     for cfg in cc_configs():
         n = 1 if tier == "quick" else 2
         for s in range(n):
@@ -943,9 +936,12 @@ def units(tier, seed):
         for s in range(n):
             us.append({"part": "B", "path": "wr", "cfg": cfg, "shard": s, "of": n})
     for allow in C_ALLOWS:
-        n = 2 if tier == "quick" else 6
+        n = 1 if tier == "quick" else 4
         for s in range(n):
             us.append({"part": "C", "allow": allow, "shard": s, "of": n})
+    us.append({"part": "C", "allow": C_ALLOWS[0], "seeds": True})
+    if tier == "thorough":
+        us.append({"part": "C", "allow": C_ALLOWS[2], "seeds": True})
     return us
 
 
@@ -959,7 +955,9 @@ def unit_weight(u):
 
 def run_unit(unit, tier):
     res = Result()
-    if unit["part"] == "A":
+    if unit["part"] == "A" and unit.get("seeds"):
+        run_a_seeds(unit, tier, res)
+    elif unit["part"] == "A":
         run_a(unit, tier, res)
     elif unit["part"] == "C":
         run_c(unit, tier, res)
